@@ -148,7 +148,8 @@ def _effects(fn, stop_helpers=None):
         return min(hits, key=lambda n: n.lineno) if hits else None
 
     n = first(lambda n: isinstance(n, ast.If) and "deactivate_flow" in src(n.test) and "_is_reference_activated_flow" in src(n.test)
-              and any(isinstance(s, ast.Assign) and src(s.targets[0]) == "%s.activated" % fs and re.sub(r"\s", "", src(s.value)) == "%s.activated-1" % fs for s in n.body)
+              and any((isinstance(s, ast.Assign) and src(s.targets[0]) == "%s.activated" % fs and re.sub(r"\s", "", src(s.value)) == "%s.activated-1" % fs) or
+                      (isinstance(s, ast.AugAssign) and src(s.target) == "%s.activated" % fs and isinstance(s.op, ast.Sub) and src(s.value) == "1") for s in n.body)
               and any(isinstance(x, ast.Return) for s in n.body for x in ast.walk(s)))
     eff["deactivate-refcount"] = n
     n = first(lambda n: isinstance(n, ast.If) and "is_listening_flow(%s)" % fs in src(n.test) and isinstance(n.test, (ast.UnaryOp, ast.BoolOp))
@@ -162,6 +163,10 @@ def _effects(fn, stop_helpers=None):
     n = first(lambda n: isinstance(n, ast.For) and "%s.action_uids" % fs in src(n.iter)
               and any(isinstance(c, ast.Call) and ((isinstance(c.func, ast.Attribute) and c.func.attr == "stop_event")
                                                    or (isinstance(c.func, ast.Name) and c.func.id in helpers)) for c in ast.walk(n)))
+    if n is None:
+        # the loop lives in a helper that is handed the flow's action list
+        n = first(lambda n: isinstance(n, ast.Expr) and isinstance(n.value, ast.Call) and isinstance(n.value.func, ast.Name) and n.value.func.id in helpers
+                  and any(src(a) == "%s.action_uids" % fs for a in n.value.args))
     eff["stop-actions"] = n
     n = first(lambda n: isinstance(n, ast.For) and "%s.heads" % fs in src(n.iter)
               and any(isinstance(c, ast.Call) and src(c.func) == "_remove_head_from_event_matching_structures" for c in ast.walk(n)))
@@ -334,10 +339,15 @@ def d_cleanup_keeps_reference(ctx, t, rule="C06.d.cleanup-keeps-reference"):
     if fn is None:
         raise AnalysisError("_clean_up_state not found", anchor=SM + "::_clean_up_state")
     adds = [n for n in ast.walk(fn) if isinstance(n, ast.Call) and isinstance(n.func, ast.Attribute) and n.func.attr == "append" and "uid" in src(n) and "remove" in src(n.func.value)]
-    if not adds:
+    comps = [n for n in ast.walk(fn) if isinstance(n, ast.Assign) and isinstance(n.value, ast.ListComp) and "remove" in src(n.targets[0]) and "flow_states" in src(n.value.generators[0].iter)
+             and n.value.generators[0].ifs]
+    if not adds and not comps:
         raise AnalysisError("collection of removable flow states not found in _clean_up_state", anchor=SM + "::_clean_up_state")
-    for a in adds:
+    for a in adds + comps:
         conj = []
+        if isinstance(a, ast.Assign):
+            for te in a.value.generators[0].ifs:
+                conj += list(te.values) if isinstance(te, ast.BoolOp) and isinstance(te.op, ast.And) else [te]
         for p in _anc(a, fn):
             if isinstance(p, ast.If):
                 te = p.test
